@@ -252,7 +252,19 @@ class RecordingProblem(Problem):
             if self.policy == "memo":
                 self.memo[key] = val
         kind = self.fault(comp, self.total_calls - 1, idx, xarg) if self.fault else None
-        if kind is not None:
+        if kind == "wrong":
+            # a finite but wrong value (first entry off by one): for derivative-check scenarios
+            if comp == "obj":
+                val = float(val) + 1.0
+            elif sps.issparse(val):
+                val = val.copy().astype(float)
+                if val.nnz:
+                    val.data[0] += 1.0
+            else:
+                val = np.array(val, dtype=float, copy=True)
+                if val.size:
+                    val.flat[0] += 1.0
+        elif kind is not None:
             bad = np.nan if kind == "nan" else np.inf
             if comp == "obj":
                 val = bad
@@ -679,10 +691,32 @@ class TracedSolver(Solver):
                     raise LinearSolverError("injected factorisation failure")
                 ls = orig(mat, solver_type, symmetric=symmetric)
             except Exception as e:  # noqa
-                rec.emit("Lin", op="factor", raised=type(e).__name__, finite=True, phase=phase)
+                rec.emit("Lin", op="factor", raised=type(e).__name__, finite=True, resOK=True, phase=phase)
                 raise
-            rec.emit("Lin", op="factor", raised="none", finite=True, phase=phase)
+            rec.emit("Lin", op="factor", raised="none", finite=True, resOK=True, phase=phase)
             o_solve = ls.solve
+            judge = {"cond": None}
+
+            def res_ok(rhs, sol, a, kw):
+                # independent residual class of a returned solve; judged only for small double-precision systems of moderate
+                # condition number (the hypothesis of C17), with a threshold far above every solver's stated tolerance
+                try:
+                    if mat.shape[0] > 40 or np.asarray(sol).dtype != np.float64 or np.asarray(rhs).dtype != np.float64:
+                        return True
+                    dense = np.asarray(mat.toarray() if hasattr(mat, "toarray") else mat, dtype=float)
+                    # GMRES claims convergence in terms of the residual itself: judged whatever the conditioning
+                    if getattr(solver_type, "name", "") != "GMRES":
+                        if judge["cond"] is None:
+                            judge["cond"] = float(np.linalg.cond(dense)) if dense.size else 1.0
+                        if not (judge["cond"] <= 1e6):
+                            return True
+                    trans = bool(kw.get("trans", a[0] if a else False))
+                    M = dense.T if trans else dense
+                    b = np.asarray(rhs, dtype=float)
+                    r = M @ np.asarray(sol, dtype=float) - b
+                    return bool(np.abs(r).max(initial=0.0) <= 5e-3 * np.abs(b).max(initial=0.0) + 1e-7)
+                except Exception:  # noqa: never let the oracle disturb the run
+                    return True
 
             def solve(rhs, *a, **kw):
                 ph = "rcond" if _in_rcond() else "trial"
@@ -693,9 +727,10 @@ class TracedSolver(Solver):
                         raise LinearSolverError("injected solve failure")
                     sol = o_solve(rhs, *a, **kw)
                 except Exception as e:  # noqa
-                    rec.emit("Lin", op="solve", raised=type(e).__name__, finite=True, phase=ph)
+                    rec.emit("Lin", op="solve", raised=type(e).__name__, finite=True, resOK=True, phase=ph)
                     raise
-                rec.emit("Lin", op="solve", raised="none", finite=bool(np.isfinite(sol).all()), phase=ph)
+                fin = bool(np.isfinite(sol).all())
+                rec.emit("Lin", op="solve", raised="none", finite=fin, resOK=(res_ok(rhs, sol, a, kw) if fin else True), phase=ph)
                 return sol
 
             ls.solve = solve
